@@ -797,8 +797,10 @@ static char *detect_include_guard(Token *tok) {
 }
 
 static Token *include_file(Token *tok, char *path, Token *filename_tok) {
-  // Check for "#pragma once"
-  if (hashmap_get(&pragma_once, path))
+  // Check for "#pragma once". The same file may be reached through
+  // different spellings of its path, so compare canonical paths.
+  char *canon = realpath(path, NULL);
+  if (canon && hashmap_get(&pragma_once, canon))
     return tok;
 
   // If we read the same file before, and if the file was guarded
@@ -968,7 +970,8 @@ static Token *preprocess2(Token *tok) {
     }
 
     if (equal(tok, "pragma") && equal(tok->next, "once")) {
-      hashmap_put(&pragma_once, tok->file->name, (void *)1);
+      char *canon = realpath(tok->file->name, NULL);
+      hashmap_put(&pragma_once, canon ? canon : tok->file->name, (void *)1);
       tok = skip_line(tok->next->next);
       continue;
     }
